@@ -630,9 +630,12 @@ func (w *worker[T, JobType]) NumIdleWorkers() int {
 func (w *worker[T, JobType]) Pause() error {
 	switch s := w.status.Load(); s {
 	case running:
-		w.status.Store(paused)
-		// let the event loop tell WaitUntilFinished callers: their condition changed
-		w.notifyToPullNextJobs()
+		// only a running worker is paused: a Stop that finished since the load above (the context
+		// listener's, for one) must not be overwritten
+		if w.status.CompareAndSwap(running, paused) {
+			// let the event loop tell WaitUntilFinished callers: their condition changed
+			w.notifyToPullNextJobs()
+		}
 	case paused, stopped:
 		return nil
 	default:
@@ -767,7 +770,17 @@ func (w *worker[T, JobType]) Resume() error {
 		return ErrRunningWorker
 	}
 
-	w.status.Store(running)
+	// Only a paused worker is resumed. A Stop that finished in the meantime (the context
+	// listener's, for one) must not be overwritten: the worker would report Running with its
+	// event loop gone.
+	if !w.status.CompareAndSwap(paused, running) {
+		if w.IsRunning() {
+			return ErrRunningWorker
+		}
+
+		return ErrNotRunningWorker
+	}
+
 	w.notifyToPullNextJobs()
 
 	return nil
